@@ -402,6 +402,7 @@ static void judge(const struct rpath *p, const struct rkeys *ks, const char *cls
 		v_violation(key, what, rj.p);
 	}
 	if (v_want_sample() && (VR.counters[0].val % 977 == 5)) {
+		vb_reset(&rj);
 		path_json(&rj, p, extra);
 		v_sample(rj.p);
 	}
